@@ -1205,8 +1205,53 @@ func analyseChanConfinement(as AnalysisSpec, progs []*Program, cs *Contracts, fu
 				}
 			}
 		}
+		if al == nil {
+			// the local was renamed: identify it by its role - the one local made with make(chan) whose
+			// value is handed to the registering callee
+			var cands []*ssa.Alloc
+			for _, b := range fn.Blocks {
+				for _, in := range b.Instrs {
+					a, ok := in.(*ssa.Alloc)
+					if !ok || a.Referrers() == nil {
+						continue
+					}
+					isMade, handed := false, false
+					for _, r := range *a.Referrers() {
+						switch x := r.(type) {
+						case *ssa.Store:
+							if _, ok := x.Val.(*ssa.MakeChan); ok && x.Addr == ssa.Value(a) {
+								isMade = true
+							}
+						case *ssa.UnOp:
+							if x.Referrers() == nil {
+								continue
+							}
+							for _, u := range *x.Referrers() {
+								if y, ok := u.(*ssa.Call); ok {
+									name := ""
+									if y.Call.IsInvoke() {
+										name = ifaceMethodKey(y.Common())
+									} else if sc := y.Call.StaticCallee(); sc != nil {
+										name = sc.Name()
+									}
+									if strings.HasSuffix(name, okCallee) {
+										handed = true
+									}
+								}
+							}
+						}
+					}
+					if isMade && handed {
+						cands = append(cands, a)
+					}
+				}
+			}
+			if len(cands) == 1 {
+				al = cands[0]
+			}
+		}
 		if al == nil || al.Referrers() == nil {
-			o.Result, o.Why = "failed", "local not found"
+			o.Result, o.Why = "failed", "no local channel that is made here and handed to "+okCallee
 			continue
 		}
 		made := false
